@@ -33,6 +33,10 @@ pub enum Op {
     RetryOtherMessage { first: u16, second: u16 },
     /// k accepted signatures of a constant message
     Skip(u16),
+    /// through ONE long-lived SigningKey object (re-synchronised with the persisted bytes through
+    /// as_mut_slice when another path advanced the key), optionally with ONE long-lived aux buffer
+    /// that key generation filled and that every such call reuses as it was left
+    SignViaObject { msg: u16, with_aux: bool },
 }
 
 #[derive(Clone, Debug, Serialize, Deserialize)]
@@ -58,6 +62,8 @@ struct Interp<'a> {
     ghost: HashMap<(usize, [u8; 16], u32), Vec<u8>>,
     wiped: bool,
     valid_aux: Option<Vec<u8>>,
+    object: Option<Box<dyn libapi::KeyObjT>>,
+    persistent_aux: Option<AuxBuf>,
     // history classification
     failed_since_release: bool,
     interruption_between_releases: bool,
@@ -239,6 +245,38 @@ impl<'a> Interp<'a> {
                     o => Err(("reload".into(), format!("SigningKey::from_bytes(persisted).as_slice() = {:?}", o))),
                 }
             }
+            Op::SignViaObject { msg, with_aux } => {
+                let m = self.msg(*msg);
+                let before = self.current.clone();
+                if self.object.is_none() {
+                    self.object = libapi::key_object(self.c.hash, &before);
+                }
+                if *with_aux && self.persistent_aux.is_none() {
+                    let mut a = AuxBuf::new(vec![0u8; 1500]);
+                    let _ = libapi::keygen(self.c.hash, &self.c.levels, &self.seed, Some(&mut a));
+                    self.persistent_aux = Some(AuxBuf::new(a.used().to_vec()));
+                }
+                let obj = match self.object.as_mut() {
+                    Some(o) => o,
+                    None => return Err(("key-object".into(), "SigningKey::from_bytes refused the persisted key".into())),
+                };
+                if obj.bytes() != before && !obj.load(&before) {
+                    return Err(("key-object".into(), "cannot re-synchronise the key object".into()));
+                }
+                let o = obj.sign_obj(&m, if *with_aux { self.persistent_aux.as_mut() } else { None });
+                let after = obj.bytes();
+                self.steps += 1;
+                match o {
+                    Out::Ok(sig) => self.on_released(&sig, &m, &after, &before),
+                    _ => {
+                        if after != before {
+                            return Err(("key-changed-on-failure".into(), "the long-lived key object changed although no signature was released".into()));
+                        }
+                        self.failed_since_release = true;
+                        Ok(())
+                    }
+                }
+            }
             Op::SignViaKey { msg, aux_none_entry } => {
                 let m = self.msg(*msg);
                 let before = self.current.clone();
@@ -285,6 +323,8 @@ pub fn check_history(c: &HistCase) -> Verdict {
         ghost: HashMap::new(),
         wiped: false,
         valid_aux: None,
+        object: None,
+        persistent_aux: None,
         failed_since_release: false,
         interruption_between_releases: false,
         crossed_boundary: false,
@@ -379,6 +419,7 @@ fn op_strategy(total: u64) -> BoxedStrategy<Op> {
         2 => Just(Op::Reload),
         2 => (any::<u16>(), any::<u16>()).prop_map(|(first, second)| Op::RetryOtherMessage { first, second }),
         3 => (1u16..kmax).prop_map(Op::Skip),
+        4 => (any::<u16>(), any::<bool>()).prop_map(|(msg, with_aux)| Op::SignViaObject { msg, with_aux }),
     ]
     .boxed()
 }
@@ -397,7 +438,7 @@ fn hist_case(maxops: usize) -> BoxedStrategy<HistCase> {
 pub fn run(ctx: &Ctx) {
     ctx.set_rule("stateful model-based: case = (hash, shape of 1..4 levels over {H2,H5} <= 1024 leaves, seed, sequence of ops {sign via hbs_lms::sign with accepting/rejecting callback, sign via SigningKey::try_sign / try_sign_with_aux(None), sign with aux buffer {empty, short header, 0xff.., zeroed, valid, valid-corrupted}, reload through SigningKey::from_bytes, retry with another message after a rejected callback, skip k accepted signatures}) interpreted against the library and a ghost state; after every step: released signature parsed with the model parser, (level, I, q) -> (C, H(content)) ghost map must never see a second different content, q's == mixed-radix digits of the number of earlier releases, I == model derivation from (parent seed, parent I, parent q), successor key == counter+1 blob or the wiped blob, failed attempts leave the key unchanged, nothing released once wiped, signature verifies. Forced class: complete lifetimes with interruptions. Non-trivial = history with a failed/rejected/reload step between two released signatures AND crossing >= 1 subtree boundary, or a complete lifetime; distinct by serialized case.");
     ctx.assume("a panic inside a signing attempt is treated as a failed attempt here (it is C11's violation); the reuse invariants are still checked on everything that is released");
-    let cases = ctx.tier.pick(600u32, 6_000u32);
+    let cases = ctx.tier.pick(400u32, 6_000u32);
     let maxops = ctx.tier.pick(30usize, 60usize);
     ctx.random("histories", &|| hist_case(maxops), cases, Opts { shrink_iters: 200, ..Opts::default() }, check_history);
     ctx.require_class("histories", "L2|crossed-boundary|with-failures|released");
@@ -424,7 +465,8 @@ pub fn run(ctx: &Ctx) {
                 ops.push(Op::SignViaKey { msg: k, aux_none_entry: k % 2 == 0 });
                 ops.push(Op::SignWithAux { msg: k, kind: if k % 3 == 0 { AuxKind::Valid } else if k % 3 == 1 { AuxKind::Zeroed } else { AuxKind::ValidCorrupted }, accept: true });
                 ops.push(Op::RetryOtherMessage { first: k, second: k + 1 });
-                done += 6;
+                ops.push(Op::SignViaObject { msg: k, with_aux: k % 2 == 0 });
+                done += 7;
                 k += 1;
             }
             full.push(HistCase { hash: *h, levels: s.to_vec(), seed: si as u64, start: 0, ops });
